@@ -39,7 +39,9 @@ REP = [("A", 0x41), ("V", 0x56), ("T", 0x54), ("a", 0x61), ("o", 0x6F), ("period
        ("two", 0x32), ("a-cy", 0x430), ("be-cy", 0x431), ("alpha", 0x3B1), ("alef-ar", 0x627), ("beh-ar", 0x628),
        ("one-ar", 0x661), ("alef-hb", 0x5D0), ("bet-hb", 0x5D1), ("ka-deva", 0x915), ("acutecomb", 0x301),
        ("A.alt", None), ("V.sc", None), ("dash.case", None),
-       ("ge-cy", 0x433), ("te-cy", 0x442), ("Gamma", 0x393), ("Tau", 0x3A4), ("comma", 0x2C)]
+       ("ge-cy", 0x433), ("te-cy", 0x442), ("Gamma", 0x393), ("Tau", 0x3A4), ("comma", 0x2C),
+       # glyphs of the Arabic script without a strong bidi class (ET / ON): kerned among themselves they are still right-to-left
+       ("percent-ar", 0x66A), ("perthousand-ar", 0x609), ("poeticverse-ar", 0x60E)]
 MULTI_LTR = ["A", "V", "T", "a-cy", "be-cy", "ge-cy", "te-cy", "alpha", "Gamma", "Tau", "period", "comma", "hyphen"]
 VALUES = [Fr(-50), Fr(-51, 2), Fr(10), Fr(0), Fr(29, 4), Fr(-3), Fr(12), Fr(-75), Fr(5, 2)]
 
@@ -56,7 +58,8 @@ def gen(rng):
         pool = [r for r in REP if r[0] in MULTI_LTR]
         n = rng.randint(9, 13)
     elif fam < 0.7:    # RTL heavy
-        pool = [r for r in REP if r[0] in ("alef-ar", "beh-ar", "one-ar", "alef-hb", "bet-hb", "period", "hyphen", "one", "A", "acutecomb")]
+        pool = [r for r in REP if r[0] in ("alef-ar", "beh-ar", "one-ar", "alef-hb", "bet-hb", "period", "hyphen", "one", "A", "acutecomb",
+                                            "percent-ar", "perthousand-ar", "poeticverse-ar")]
     else:
         pool = list(REP)
     items = rng.sample(pool, min(n, len(pool)))
